@@ -141,6 +141,79 @@ DRV_OP(ab_ndarr) {
     });
 }
 
+// ab_ndarrw <dtype> <[shape]> <access type> geti|seti <n> : element access with ANOTHER element type than the array was made for
+// (the byte offset is index * sizeof(T), the bound is the storage size in units of T)      => ok <value as double>
+DRV_OP(ab_ndarrw) {
+    if (a.size() != 6) throw ProtoError("ab_ndarrw arity");
+    return guarded([&]() {
+        nix::NDArray arr(dtOf(a[1]), nd(a[2]));
+        const std::string &k = a[4];
+        size_t i = (size_t) tokNat(a[5]);
+        double out = 0;
+        #define ACCW(T) { if (k == "geti") out = (double) arr.get<T>(i); else if (k == "seti") { arr.set<T>(i, (T) 1); out = 1; } else throw ProtoError("ab_ndarrw kind " + k); }
+        switch (dtOf(a[3])) {
+        case nix::DataType::Bool: case nix::DataType::UInt8: ACCW(uint8_t) break;
+        case nix::DataType::Int8: ACCW(int8_t) break;
+        case nix::DataType::Int16: ACCW(int16_t) break;
+        case nix::DataType::UInt16: ACCW(uint16_t) break;
+        case nix::DataType::Int32: ACCW(int32_t) break;
+        case nix::DataType::UInt32: ACCW(uint32_t) break;
+        case nix::DataType::Int64: ACCW(int64_t) break;
+        case nix::DataType::UInt64: ACCW(uint64_t) break;
+        case nix::DataType::Float: ACCW(float) break;
+        default: ACCW(double) break;
+        }
+        #undef ACCW
+        return std::string(k == "seti" ? "set" : "got");
+    });
+}
+
+// ab_tagidx <T|M> <reference index> <feature index> : a tag / multi-tag with ONE reference and ONE feature, asked for the data of
+// reference / feature number <index> through every entry point that takes an index      => ok <answer class per entry point …>
+DRV_OP(ab_tagidx) {
+    if (a.size() != 4) throw ProtoError("ab_tagidx arity");
+    return guarded([&]() {
+        std::string path = scratch("tagidx.nix");
+        nix::File f = nix::File::open(path, nix::FileMode::Overwrite);
+        nix::Block b = f.createBlock("b", "t");
+        nix::DataArray da = b.createDataArray("a", "t", nix::DataType::Double, nix::NDSize({5}));
+        da.appendSampledDimension(1.0);
+        nix::DataArray fa = b.createDataArray("fa", "t", nix::DataType::Double, nix::NDSize({5}));
+        fa.appendSampledDimension(1.0);
+        nix::ndsize_t ri = (nix::ndsize_t) tokNat(a[2]), fi = (nix::ndsize_t) tokNat(a[3]);
+        std::vector<std::string> out;
+        auto cls = [&](const std::function<void()> &call) {
+            std::string r = guarded([&]() { call(); return std::string(); });
+            out.push_back(r == "ok" ? "ok" : r.substr(0, 4) == "err " ? r.substr(4) : r);
+        };
+        if (a[1] == "T") {
+            nix::Tag t = b.createTag("t", "t", {1.0});
+            t.addReference(da); t.createFeature(fa, nix::LinkType::Tagged);
+            cls([&]() { nix::util::taggedData(t, ri); });
+            cls([&]() { nix::util::taggedData(t, ri, nix::RangeMatch::Inclusive); });
+            cls([&]() { t.taggedData((size_t) ri); });
+            cls([&]() { nix::util::featureData(t, fi); });
+            cls([&]() { t.featureData((size_t) fi); });
+        } else {
+            nix::DataArray pos = b.createDataArray("p", "t", nix::DataType::Double, nix::NDSize({2}));
+            std::vector<double> pv = {1.0, 2.0}; pos.setData(pv);
+            nix::MultiTag t = b.createMultiTag("m", "t", pos);
+            t.addReference(da); t.createFeature(fa, nix::LinkType::Tagged);
+            std::vector<nix::ndsize_t> l = {0, 1};
+            cls([&]() { nix::util::taggedData(t, (nix::ndsize_t) 0, ri); });
+            cls([&]() { std::vector<nix::ndsize_t> l2 = l; nix::util::taggedData(t, l2, ri); });
+            cls([&]() { t.taggedData((size_t) 0, (size_t) ri); });
+            cls([&]() { nix::util::featureData(t, (nix::ndsize_t) 0, fi); });
+            cls([&]() { nix::util::featureData(t, l, fi); });
+            cls([&]() { t.featureData((size_t) 0, (size_t) fi); });
+        }
+        f.close();
+        std::string r;
+        for (size_t i = 0; i < out.size(); i++) r += (i ? " " : "") + out[i];
+        return r;
+    });
+}
+
 DRV_OP(ab_posin) {
     if (a.size() != 4) throw ProtoError("ab_posin arity");
     return guarded([&]() {
